@@ -1725,3 +1725,22 @@ def c1_export(ctx):
         ctx.undecided("C05-C1", site, "sparse as_array: not recognised as `full(default)` overwritten by every stored item at its index", "; ".join(sorted(set(und))))
     elif not bad:
         ctx.ok("C05-C1", site, "sparse export = default block overwritten by every stored item")
+
+
+
+# ----------------------------------------------------------------------- generic families (msa/rules/generic.py)
+_run_specific = run
+
+
+def run(ctx):
+    _run_specific(ctx)
+    from ..rules import generic
+    generic.apply(ctx, "C05", stale_modules=())
+
+
+def _generic_rule_texts():
+    from ..rules import generic
+    return generic.rule_texts("C05", stale=False)
+
+
+RULES.update(_generic_rule_texts())
